@@ -1011,7 +1011,7 @@ func (g *scenGen) env() M {
 		e["redaction_policy"] = pol
 	}
 	if r.Chance(0.15) {
-		e["number_format"] = M{"decimal_symbol": ",", "digit_grouping_symbol": "."}
+		e["number_format"] = fw.Pick(r, []M{{"decimal_symbol": ",", "digit_grouping_symbol": "."}, {"decimal_symbol": ",", "digit_grouping_symbol": " "}, {"decimal_symbol": ".", "digit_grouping_symbol": " "}, {"decimal_symbol": ",", "digit_grouping_symbol": "."}})
 	}
 	if r.Chance(0.2) {
 		e["input_collation"] = fw.Pick(r, []string{"default", "confusables", "arabic_variants"})
@@ -1019,7 +1019,7 @@ func (g *scenGen) env() M {
 	return e
 }
 
-var msgTexts = []string{"hi there", "yes", "no", "red", "23", "17", "I am 23 years old", "2020-01-01", "tomorrow at 10:30", "+12065551212", "foo@bar.com", "Kigali", "book a flight", "", "YES please", "blue red", "  yes  ", "日本語", "😀"}
+var msgTexts = []string{"hi there", "yes", "no", "red", "23", "17", "I am 23 years old", "2020-01-01", "tomorrow at 10:30", "+12065551212", "foo@bar.com", "Kigali", "book a flight", "", "YES please", "blue red", "  yes  ", "日本語", "😀", "1.234,50", "1 234,50", "1,234.50", "I have 1.234,5 cows"}
 
 func (g *scenGen) msg(urnsOfContact []string) M {
 	r := g.r
